@@ -236,7 +236,9 @@ def _duration_writer_int(prog, rep, rule, only_coverage, f, iso, r, date_pairs, 
     sign = parts[0] if parts and parts[0][0] == "fmt" else None
     sign_ok = False
     if sign is not None and sign[1][0] == "ifexp" and sign[1][2] == ("const", "-") and sign[1][3] == ("const", ""):
-        for x in T.walk(sign[1][1]):
+        test = sign[1][1]
+        # (`total < 0` alone must decide: the test is that comparison, or a disjunction with it as a direct operand)
+        for x in ([test] if test[0] != "boolop" else (list(test[2]) if test[1] == "or" else [])):
             if x[0] == "cmp" and x[1] == "<" and x[3] == ("const", 0):
                 lf = _lin(x[2], dt)
                 if lf is not None and total_ok(("abs", ("lin", tuple(sorted((str(k), v) for k, v in lf.items()))))):
@@ -409,6 +411,22 @@ def r04_3_4(prog: Program, rep: Report, pe, urows):
             rep.check(v == src and not lossy, "R04.4", f.qualname, f.loc, "the number is passed unchanged (no narrowing)", f"the number is narrowed or altered before reaching the duration: seconds={T.show(v)[:80]} (1.5 would become 1 s)")
     if not sites:
         rep.violated("R04.3", "typelib.unmarshals.routines", urows[0].loc, "no number -> timedelta site found on the numeric path")
+    # "numbers" are int *and* float epoch seconds: the numeric test of every temporal routine names both
+    for cls in ("datetime.date", "datetime.datetime", "datetime.time", "datetime.timedelta"):
+        k2, r2 = C.route(prog, pe, urows, C.TypeArg(cls))
+        if k2 != "row" or r2.routine is None:
+            continue
+        f3 = C.call_of(prog, r2.routine)
+        tests = []
+        for p in P.paths_of(prog, f3):
+            for g, _pol in p.guards():
+                for y in T.walk(g):
+                    if T.is_call_to(y, "builtins.isinstance") and len(y[2]) == 2 and _numeric_classes(y[2][1]):
+                        names = {T.refname(x) for x in (y[2][1][1] if y[2][1][0] == "tuple" else (y[2][1],))}
+                        tests.append(names)
+        if tests:
+            both = all({"builtins.int", "builtins.float"} <= n or n & {"numbers.Real", "numbers.Number"} for n in tests)
+            rep.check(both, "R04.3", r2.routine.qualname, f3.loc, "the numeric test covers int and float epoch seconds", f"the numeric test of the {cls.rsplit('.', 1)[-1]} routine names {sorted(set().union(*tests))} only: the other kind of number is not read as seconds since the epoch (it is handed to the text parser and rejected)", detail="numeric-both")
 
 
 def _numeric_classes(term) -> bool:
@@ -615,6 +633,70 @@ def r04_12(prog: Program, rep: Report, urows, pe):
             if T.is_call_to(x, "builtins.abs") and x[2] and is_parsed(x[2][0]):
                 floaty_ops.append(T.show(x)[:60])
     rep.check(not floaty_ops, "R04.12", f.qualname, f.loc, "no arithmetic operator is applied to a parsed Duration itself (the sign is applied on whole microseconds)", f"an arithmetic operator is applied to the parser's Duration ({floaty_ops[0] if floaty_ops else ''}): pendulum.Duration.__neg__/__mul__/__abs__ rebuild the result from float total_seconds(), so a negative duration beyond 2**33 seconds comes back with wrong microseconds ('-P99421DT0.000001S' reads back a few µs off)", detail="sign-exact")
+    # (d) which path a signed / unsigned duration text takes, and what is parsed on it.  The guards on the text are
+    #     interpreted (terms.ceval) on three witnesses; the returned term is matched structurally.
+    td_paths = []
+    for p, ret in P.returns(P.paths_of(prog, f)):
+        atoms = T.derive_atoms(p.guards())
+        if any((not val_) and T.is_call_to(a, "builtins.issubclass") and a[2][:1] == (tparam,) and T.contains(a[2][1], lambda y: T.refname(y) == "datetime.timedelta") for a, val_ in atoms):
+            continue  # a path for another target class
+        if any(e[0] in ("caught",) for e in p.events):
+            continue  # the numeric fallback after the parser declined
+        td_paths.append((p, ret))
+    ONE = ("call", ("ref", "datetime.timedelta"), (), (("microseconds", ("const", 1)),))
+    is_rec = lambda y: T.is_call_to(y, f"{C.SERDES}.dateparse") and y[2]  # noqa: E731
+    problems, undecided = [], None
+    # the target class is timedelta: every class test on the type parameter is decided
+    class_env = {}
+    for p, _ret in td_paths:
+        for g, _pol in p.guards():
+            for y in T.walk(g):
+                if T.is_call_to(y, "builtins.issubclass") and y[2][:1] == (tparam,):
+                    class_env[y] = T.contains(y[2][1], lambda z: T.refname(z) == "datetime.timedelta")
+    for w, want in (("-PT1S", "negated"), ("+PT1S", "plain"), ("PT1S", "unsigned")):
+        taken = []
+        for p, ret in td_paths:
+            textual = [(g, pol) for g, pol in p.guards() if (T.contains(g, lambda x: x == val) or g in class_env) and not T.contains(g, lambda x: x[0] == "call" and x[1][0] == "attr" and x[1][2] == "fromisoformat")]
+            try:
+                if all(bool(T.ceval(g, {val: w, **class_env})) == pol for g, pol in textual):
+                    taken.append((p, ret))
+            except T.Undecidable as e:
+                undecided = str(e)
+        if undecided:
+            break
+        kinds = set()
+        for p, ret in taken:
+            recs = [y for y in T.walk(ret) if is_rec(y)]
+            if not recs:
+                kinds.add("unsigned")
+                continue
+            try:
+                arg = T.ceval(recs[0][2][0], {val: w})
+            except T.Undecidable as e:
+                undecided = str(e)
+                break
+            if arg != w[1:]:
+                problems.append(f"for {w!r} the magnitude is parsed from {arg!r}, not from {w[1:]!r}")
+            if ret == recs[0]:
+                kinds.add("plain")
+            else:
+                kinds.add("negated")
+                fl = [y for y in T.walk(ret) if (T.is_call_to(y, "datetime.timedelta.__floordiv__") and len(y[2]) == 2) or (y[0] == "binop" and y[1] == "//")]
+                if fl:
+                    a, b = (fl[0][2][0], fl[0][2][1]) if fl[0][0] == "call" else (fl[0][2], fl[0][3])
+                    unit_ok = b == ONE and T.contains(a, is_rec) and T.contains(ret, lambda y: y[0] == "binop" and y[1] == "*" and ONE in (y[2], y[3])) and T.contains(ret, lambda y: y[0] == "unop" and y[1] == "-")
+                    if not unit_ok:
+                        problems.append(f"the negation of {w!r} does not go through whole microseconds (magnitude // timedelta(microseconds=1), negated, times that unit): {T.show(ret)[:90]}")
+        if undecided:
+            break
+        if not taken:
+            problems.append(f"no path of dateparse is open to {w!r}")
+        elif kinds != {want}:
+            problems.append(f"{w!r} is read on a path that returns the {sorted(kinds)} form, not the {want} one")
+    if undecided:
+        rep.undecided("R04.12", f.qualname, f.loc, f"the path a signed duration text takes could not be interpreted ({undecided})", detail="reader-sign-paths")
+    else:
+        rep.check(not problems, "R04.12", f.qualname, f.loc, "'-…' is parsed from the text after the sign and negated on whole microseconds, '+…' is parsed from the text after the sign, unsigned text goes to the parser as it is", "; ".join(problems[:3]) + " -- what isoformat() writes for a negative timedelta does not read back as that timedelta", detail="reader-sign-paths")
     k, r = C.route(prog, pe, urows, C.TypeArg("datetime.timedelta"))
     if k != "row" or r.routine is None:
         rep.undecided("R04.12", "unmarshal:timedelta", "", "timedelta routine not found", detail="exact-rebuild")
@@ -656,6 +738,19 @@ def r04_9(prog: Program, rep: Report):
     # wall-clock fields, which do not exist for instants before 0001-01-01 / after 9999-12-31 in that zone
     rezoned = [T.show(r)[:80] for _, r in P.returns(P.paths_of(prog, f)) if T.contains(r, lambda x: x[0] == "call" and x[1][0] == "attr" and x[1][2] in ("astimezone", "utctimetuple", "in_timezone", "in_tz"))]
     rep.check(not rezoned, "R04.9", f.qualname, f.loc, "the datetime's own timestamp() is taken (no zone conversion on the way)", f"unixtime converts the datetime to another zone before taking the timestamp ({rezoned[0] if rezoned else ''}): astimezone() raises OverflowError when the wall clock in that zone falls outside years 1..9999 (datetime(1,1,1,tzinfo=+14:00), datetime(9999,12,31,23,tzinfo=-12:00)), values whose timestamp() is well defined", detail="no-rezone")
+    # a date is placed at UTC midnight -- a datetime (which is a date, too) is not: wherever a datetime is *built* from
+    # year/month/day alone the path has established that the value is no datetime
+    widened = []
+    for pth in P.paths_of(prog, f):
+        builds = [x for tm in pth.all_terms() for x in T.walk(tm) if T.is_call_to(x, "datetime.datetime") and {"year", "month", "day"} <= set(dict(x[3])) and "hour" not in dict(x[3])]
+        if not builds:
+            continue
+        atoms = T.derive_atoms(pth.guards())
+        y_arg = dict(builds[0][3])["year"]
+        subject = y_arg[1] if y_arg[0] == "attr" else dt  # the value whose date is taken
+        if not any((not val_) and T.is_call_to(a, "builtins.isinstance") and a[2][:1] == (subject,) and T.contains(a[2][1], lambda y: T.refname(y) == "datetime.datetime") for a, val_ in atoms):
+            widened.append(T.show(builds[0])[:60])
+    rep.check(not widened, "R04.9", f.qualname, f.loc, "only a plain date is placed at UTC midnight", "a datetime, too, can be replaced by midnight UTC of its date (the date arm does not exclude datetime, which is a date): unixtime(datetime(2020, 1, 1, 12, tzinfo=utc)) loses the time of day and the offset", detail="date-arm-excludes-datetime")
     rep.check(td_ok, "R04.9", f.qualname, f.loc, "a duration becomes its total_seconds()", "unixtime(timedelta) is not dt.total_seconds()", detail="timedelta")
     rep.check(time_ok, "R04.9", f.qualname, f.loc, "a time is placed on today's date in its own zone, hour/minute/second/microsecond copied", "unixtime(time) does not copy all four clock fields onto now(tz=dt.tzinfo)", detail="time")
     for name in ("_nomalize_dt", "_normalize_number"):
